@@ -107,23 +107,25 @@ Proof. intro H. unfold tab. apply map_ext_in. intros k Hk. rewrite H by exact Hk
 
 (* one "update or insert at the end" step on a tabulated map whose keys are the distinct keys of
    a list [a], when key [k] is appended to [a] *)
-Lemma upsert_tab {V} (G G' : name -> V) (upd : V -> V) (a : list name) (k : name) :
+Lemma upsert_tab {V} (G G' : name -> V) (upd : V -> V) (init : V) (a : list name) (k : name) :
   (forall k', k' <> k -> G' k' = G k') ->
   (In k a -> G' k = upd (G k)) ->
+  (~ In k a -> G' k = init) ->
   match al_get k (tab G (distinct_keys a [])) with
   | Some v => al_set k (upd v) (tab G (distinct_keys a []))
-  | None => tab G (distinct_keys a []) ++ [(k, G' k)]
+  | None => tab G (distinct_keys a []) ++ [(k, init)]
   end = tab G' (distinct_keys (a ++ [k]) []).
 Proof.
-  intros Hext Hupd. rewrite al_get_tab, distinct_keys_snoc. cbn [mem_name existsb orb].
+  intros Hext Hupd Hinit. rewrite al_get_tab, distinct_keys_snoc. cbn [mem_name existsb orb].
   fold (mem_name k a).
   destruct (mem_name k (distinct_keys a [])) eqn:E.
   - apply mem_name_In in E. pose proof E as E'. apply distinct_keys_In in E'. destruct E' as [Hin _].
     pose proof Hin as Hm. apply mem_name_In in Hm. rewrite Hm, app_nil_r.
     rewrite <- (Hupd Hin). apply al_set_tab; [apply distinct_keys_NoDup|exact E|exact Hext].
-  - apply mem_name_not_In in E. assert (Hm : mem_name k a = false).
-    { apply mem_name_not_In. intro Hin. apply E. apply distinct_keys_In. split; [exact Hin|]. intros []. }
-    rewrite Hm, tab_app. f_equal. apply tab_ext_in. intros k' Hk'. symmetry. apply Hext.
+  - apply mem_name_not_In in E. assert (Hnin : ~ In k a).
+    { intro Hin. apply E. apply distinct_keys_In. split; [exact Hin|]. intros []. }
+    pose proof Hnin as Hm. apply mem_name_not_In in Hm.
+    rewrite Hm, tab_app, <- (Hinit Hnin). f_equal. apply tab_ext_in. intros k' Hk'. symmetry. apply Hext.
     intro Heq. subst k'. contradiction.
 Qed.
 
@@ -138,32 +140,32 @@ Proof. reflexivity. Qed.
 Lemma response_key_eq f : response_key f = field_response_key f.
 Proof. reflexivity. Qed.
 
+Lemma keyfilter_nil l k : ~ In k (map field_response_key l) -> keyfilter l k = [].
+Proof.
+  intro Hnin. unfold keyfilter.
+  destruct (filter (fun g => name_eqb (field_response_key g) k) l) as [|g r] eqn:Ef; [reflexivity|].
+  exfalso. assert (Hg : In g (g :: r)) by (left; reflexivity). rewrite <- Ef in Hg.
+  apply filter_In in Hg. destruct Hg as [Hg Hk]. apply name_eqb_eq in Hk.
+  apply Hnin. rewrite <- Hk. apply in_map. exact Hg.
+Qed.
+
+Lemma keyfilter_snoc l f k :
+  keyfilter (l ++ [f]) k = keyfilter l k ++ (if name_eqb (field_response_key f) k then [f] else []).
+Proof. unfold keyfilter. rewrite filter_app. reflexivity. Qed.
+
 Lemma cf_push_group l f :
   cf_push (response_key f) f (group_by_key l) = group_by_key (l ++ [f]).
 Proof.
   rewrite !group_by_key_tab, map_app. cbn [map]. rewrite response_key_eq.
   unfold cf_push.
-  rewrite <- (upsert_tab (keyfilter l) (keyfilter (l ++ [f])) (fun fs => fs ++ [f])
-                         (map field_response_key l) (field_response_key f)).
-  - destruct (al_get (field_response_key f) (tab (keyfilter l) (distinct_keys (map field_response_key l) []))) eqn:E;
-      [reflexivity|].
-    f_equal. f_equal. f_equal. unfold keyfilter. rewrite filter_app. cbn [filter].
-    rewrite name_eqb_refl.
-    rewrite al_get_tab in E.
-    destruct (mem_name (field_response_key f) (distinct_keys (map field_response_key l) [])) eqn:Em; [discriminate|].
-    apply mem_name_not_In in Em.
-    assert (Hnil : filter (fun g => name_eqb (field_response_key g) (field_response_key f)) l = []).
-    { destruct (filter (fun g => name_eqb (field_response_key g) (field_response_key f)) l) as [|g r] eqn:Ef;
-        [reflexivity|].
-      exfalso. assert (Hg : In g (g :: r)) by (left; reflexivity). rewrite <- Ef in Hg.
-      apply filter_In in Hg. destruct Hg as [Hg Hk]. apply name_eqb_eq in Hk.
-      apply Em. apply distinct_keys_In. split; [|intros []]. rewrite <- Hk. apply in_map. exact Hg. }
-    rewrite Hnil. reflexivity.
-  - intros k' Hne. unfold keyfilter. rewrite filter_app. cbn [filter].
+  apply (upsert_tab (keyfilter l) (keyfilter (l ++ [f])) (fun fs => fs ++ [f]) [f]
+                    (map field_response_key l) (field_response_key f)).
+  - intros k' Hne. rewrite keyfilter_snoc.
     destruct (name_eqb (field_response_key f) k') eqn:E.
     + apply name_eqb_eq in E. congruence.
     + apply app_nil_r.
-  - intros _. unfold keyfilter. rewrite filter_app. cbn [filter]. rewrite name_eqb_refl. reflexivity.
+  - intros _. rewrite keyfilter_snoc, name_eqb_refl. reflexivity.
+  - intro Hnin. rewrite keyfilter_snoc, name_eqb_refl, (keyfilter_nil l _ Hnin). reflexivity.
 Qed.
 
 Definition push_all (l : list selection) (m : field_groups) : field_groups :=
